@@ -51,6 +51,14 @@ def gen_knobs(r, driver, allow_batch=False):
     return k
 
 
+def gen_bus_status(r, driver, p=0.15):
+    """Bus status reports the Tridonic gateway sends unasked (see drvsim): [[t_us, status code]]."""
+    if driver != "tridonic" or r.random() >= p:
+        return []
+    return sorted([r.choice([500, 5000, 12000, 25000, 40000, 70000, 150000, r.randrange(0, 400000)]),
+                   r.choice([1, 2, 4, 4, 5, 6, 6, 0, 7])] for _ in range(r.randrange(1, 4)))
+
+
 def add_out(outs, spec, out):
     if out is not None:
         outs["%d:%d" % (spec[0], spec[1])] = out
@@ -217,7 +225,7 @@ def shrink(plan):
                 p = copy.deepcopy(plan)
                 del p["second_line"]["sends"][i]
                 yield p
-    for key in ("traffic", "faults", "subs"):
+    for key in ("traffic", "faults", "subs", "bus_status"):
         lst = plan.get(key) or []
         for i in range(len(lst)):
             p = copy.deepcopy(plan)
